@@ -1036,14 +1036,14 @@ type rel struct {
 }
 
 var closeRels = []rel{
-	{name: "same"},                       // (a) exactly the same position (bitwise identical S2 point)
-	{name: "sub", a: .30, b: .20},        // (b) 0.36 units away, same unit from an anchor
-	{name: "subNear", a: .04, b: -.03},   // (b) 0.05 units away
-	{name: "straddle", a: .67},           // (b') 0.67 units away, the next unit from an anchor
-	{name: "one", a: 1},                  // (c) exactly one unit along u
-	{name: "oneDiag", a: 1, b: 1},        // (c) one unit in both coordinates
-	{name: "oneDiagNeg", a: 1, b: -1},    // (c) one unit in both coordinates, opposite signs
-	{name: "far", far: true},             // ordinary long segment
+	{name: "same"},                     // (a) exactly the same position (bitwise identical S2 point)
+	{name: "sub", a: .30, b: .20},      // (b) 0.36 units away, same unit from an anchor
+	{name: "subNear", a: .04, b: -.03}, // (b) 0.05 units away
+	{name: "straddle", a: .67},         // (b') 0.67 units away, the next unit from an anchor
+	{name: "one", a: 1},                // (c) exactly one unit along u
+	{name: "oneDiag", a: 1, b: 1},      // (c) one unit in both coordinates
+	{name: "oneDiagNeg", a: 1, b: -1},  // (c) one unit in both coordinates, opposite signs
+	{name: "far", far: true},           // ordinary long segment
 }
 
 const nClose = 7 // closeRels[:nClose] are the close relations
